@@ -181,6 +181,15 @@ func (t *refTables) mutualOnly(s []byte) bool {
 func judge(i int, line, out string) {
 	ws := strings.Fields(line)
 	op := ws[0]
+	if op == "cfg" {
+		// the same judgement as without an ini file: the ini names the same two tables under their own keys
+		if strings.HasPrefix(out, "INIT-") || out == "child-error" {
+			run.Fail(i, "crash:initconfig", fmt.Sprintf("types.InitConfig under ini variant %s (both tables named under their keys): %s", ws[1], out))
+			return
+		}
+		judge(i, ws[2]+" "+ws[3], out)
+		return
+	}
 	if out == "PANIC" || out == "TIMEOUT" {
 		switch op {
 		case "b2u":
